@@ -189,6 +189,12 @@ impl<T: Send + Sync + 'static> Probe<T> {
                     o.push(format!("kick {}", i.name));
                 }
             }
+            // ... or makes a member that has not greeted yet greet now
+            for i in g.insts.iter() {
+                if i.pending {
+                    o.push(format!("kickgreet {}", i.name));
+                }
+            }
             // ... or complete / fail at once
             for i in g.insts.iter() {
                 if i.live() && g.pups[i.pup - 1].mode != PMode::Pull {
@@ -259,7 +265,7 @@ impl<T: Send + Sync + 'static> Probe<T> {
                     return;
                 }
                 let (what, name) = match other.split_once(' ') {
-                    Some((w, n)) if w == "kick" || w == "kickend" || w == "kickfail" => (w, n),
+                    Some((w, n)) if w == "kick" || w == "kickend" || w == "kickfail" || w == "kickgreet" => (w, n),
                     _ => ("", ""),
                 };
                 if !what.is_empty() {
@@ -275,6 +281,7 @@ impl<T: Send + Sync + 'static> Probe<T> {
                         k(ix, pup, match what {
                             "kickend" => "end",
                             "kickfail" => "fail",
+                            "kickgreet" => "greet",
                             _ => "emit",
                         });
                     }
